@@ -3,7 +3,9 @@
     Gallina function: every text yields an expression, a ParseError or "outside the model".
     PARTIAL: that the implementation (Lark) raises nothing but ParseError, and that it agrees
     with the model on every text, is decided by the differential check (random and mutated
-    texts), not by a theorem; layout invariance is proved for leading white space only. *)
+    texts), not by a theorem; layout invariance is proved (end of this file) for white space in every
+    position of expressions built from integers, strings, symbols, booleans, operators and lists; comments
+    and the remaining forms by the differential check. *)
 From WalModel Require Import Reader.
 From WalModel.proofs Require Import CsvProofs ReaderProofs.
 Local Open Scope Z_scope.
@@ -67,3 +69,36 @@ Example literal_examples :
   read_sexpr (String (ch 34) (String (ch 92) (String "x" (String "4" (String "1" (String (ch 34) "")))))) = ROk (VStr "A") "" /\
   read_sexprs (String "#" (String "!" ("/usr/bin/wal" ++ String (ch 10) ("; c" ++ String (ch 10) "(a) 1")))) = ROk [WL [Sy "a"]; VInt 1] "".
 Proof. vm_compute. repeat split; reflexivity. Qed.
+
+(** * layout (proofs/LayoutProofs.v)
+    [renders e text]: text is the expression e written with ANY amount of white space (space, tab, newline,
+    form feed, carriage return) after an opening bracket, between list elements and before a closing bracket
+    (the empty list is written "()" only: "( )" is a parse error in the implementation).  For the expression
+    class of C11 ([RoundTrip.simple]: integers, strings, plain symbols, booleans, operators, nested lists) every
+    such text, also surrounded by white space, reads as e. *)
+From WalModel.proofs Require Import RoundTrip LayoutProofs.
+
+Theorem layout_does_not_matter : forall e text lead trail,
+  renders e text -> simple e = true -> wsp lead -> wsp trail ->
+  read_sexpr (lead ++ text ++ trail) = ROk e "".
+Proof. exact read_with_layout. Qed.
+Print Assumptions layout_does_not_matter.
+
+Theorem layout_in_context : forall e text, renders e text -> simple e = true ->
+  (forall f rest, (5 * vsize e + 4 <= f)%nat -> delim rest -> p_sexpr f (text ++ rest) = ROk e (inter rest)) /\
+  exists c t, text = String c t /\ good_first c.
+Proof. exact layout_roundtrip. Qed.
+Print Assumptions layout_in_context.
+
+Example a_layout :
+  renders (WL [VOp OAdd; VInt 1; WL [VSym "f" None; VStr "s"]])
+          ("(" ++ String (ascii_of_N 10) "  " ++ "+" ++ "   " ++ "1" ++ String (ascii_of_N 9) "" ++ ("(" ++ "" ++ "f" ++ " " ++ """s""" ++ " " ++ ")") ++ "" ++ ")").
+Proof.
+  apply (r_list (VOp OAdd) _ (String (ascii_of_N 10) "  ")); [reflexivity|].
+  apply (b_cons (VOp OAdd) (VInt 1) _ "+" "   "); [apply (r_atom (VOp OAdd)); discriminate|reflexivity|discriminate|].
+  apply (b_cons (VInt 1) _ _ "1" (String (ascii_of_N 9) "")); [apply (r_atom (VInt 1)); discriminate|reflexivity|discriminate|].
+  apply (b_last _ ("(" ++ "" ++ "f" ++ " " ++ """s""" ++ " " ++ ")") ""); [|reflexivity].
+  apply (r_list (VSym "f" None) _ ""); [reflexivity|].
+  apply (b_cons (VSym "f" None) (VStr "s") [] "f" " "); [apply (r_atom (VSym "f" None)); discriminate|reflexivity|discriminate|].
+  apply (b_last (VStr "s") """s""" " "); [apply (r_atom (VStr "s")); discriminate|reflexivity].
+Qed.
